@@ -198,7 +198,15 @@ class ResponseHandler(BaseProtocol, DataQueue[tuple[RawResponseMessage, StreamRe
     def resume_reading(self, resume_parser: bool = True) -> None:
         was_paused = self._reading_paused
         super().resume_reading(resume_parser)
-        if was_paused:
+        # Resuming may have parsed buffered data up to the end of the
+        # response (the connection may already be back in the pool) or
+        # paused reading again; only an ongoing read needs the timer.
+        if (
+            was_paused
+            and not self._reading_paused
+            and self._payload is not None
+            and not self._payload.is_eof()
+        ):
             self._reschedule_timeout()
 
     def set_exception(
